@@ -300,6 +300,16 @@ func (v *FnVC) specIdent(name string, env *Env, cl *Clause) Term {
 	case "nil":
 		return Term{"0", types.Typ[types.UntypedNil]}
 	case "result":
+		if len(env.results) == 0 && !env.callee {
+			// a source variable that happens to be called "result"
+			if p := v.lookupLocal(name, env.pos); p != nil {
+				if _, ok := env.st[p.Key]; ok || p.Kind != "local" {
+					var out string
+					v.withState(env.st, func() { out = v.load(p, token.NoPos) })
+					return Term{out, p.Typ}
+				}
+			}
+		}
 		if len(env.results) == 0 {
 			v.specFail(cl, "result used outside a postcondition")
 		}
